@@ -49,6 +49,9 @@ def run(tier, seed):
               ({'k': 'set', 'inv': False, 'items': [['range', 0, 4]]}, True), ({'k': 'set', 'inv': True, 'items': [['range', 0, 31]]}, True),
               ({'k': 'seq', 'c': [{'k': 'star', 'c': {'k': 'set', 'inv': False, 'items': [['range', 128, 255]]}}, {'k': 'set', 'inv': False, 'items': [['range', 0, 127]]}]}, True),
               ({'k': 'set', 'inv': False, 'items': [['range', 250, 255], ['ch', 0]]}, True)]
+    # character-class algebra inside sets (quick: a rotating third)
+    alg = regexgen.set_algebra()
+    corner += [(a, False) for i, a in enumerate(alg) if not quick or i % 3 == seed % 3 or sum(1 for it in a['items'] if it[0] == 'cc' and it[1].isupper()) >= 2]
     ncorner = len(corner)
     asts = corner + asts
     items, progs_ast = [], []
@@ -70,7 +73,7 @@ def run(tier, seed):
     # C stage: the emitted matcher of a subset, every state x every byte 0..255 (+ end), validated against the machine (StepTrace)
     import shutil
     from props import c06
-    sub = [p for p, a in pairs][:ncorner * 2] + [p for p, a in pairs][ncorner * 2::(7 if quick else 3)]
+    sub = [p for p, a in pairs][:ncorner * 2:(3 if quick else 1)] + [p for p, a in pairs][ncorner * 2::(7 if quick else 3)]
     built = runner.compile_programs([(p.name, p.src, p.args) for p in sub])
     root = runner.scratch_dir()
     nsweeps = swacc = 0
